@@ -8,3 +8,4 @@ cd /verif
 ./bin/mcgen -nofuel -src scen -out build/gen/scen -replace "github.com/vbauerster/mpb/v8=>/verif/build/gen/mpb" >/dev/null
 (cd mc && go build -o /verif/build/mc-dev .)
 (cd pristine && go build -o /verif/build/pristine-dev .)
+(cd mc && go build -race -gcflags='mcrt/...=-race=false' -gcflags='scen=-race=false' -o /verif/build/mcrace-dev .)
